@@ -112,6 +112,11 @@ nostd::shared_ptr<opentelemetry::trace::Span> Tracer::StartSpan(
   {
     flags |= opentelemetry::trace::TraceFlags::kIsSampled;
   }
+  else
+  {
+    // The sampled flag inherited from the parent must not survive a negative decision.
+    flags = static_cast<uint8_t>(flags & ~opentelemetry::trace::TraceFlags::kIsSampled);
+  }
 
 #if 1
   /* https://github.com/open-telemetry/opentelemetry-specification as of v1.29.0 */
